@@ -199,9 +199,24 @@ func (r *RaftPeer) Know(o *RaftPeer) {
 func (r *RaftPeer) Close() error {
 	var err error
 	if r.Cluster != nil {
-		ctx, cancel := context.WithTimeout(context.Background(), 40*time.Second)
-		err = r.Cluster.Shutdown(ctx)
-		cancel()
+		// Cluster.Shutdown can block for ever (when ready() timed out it calls
+		// Shutdown from the goroutine Shutdown waits for): never wait unboundedly.
+		done := make(chan error, 1)
+		go func() {
+			ctx, cancel := context.WithTimeout(context.Background(), 40*time.Second)
+			defer cancel()
+			done <- r.Cluster.Shutdown(ctx)
+		}()
+		select {
+		case err = <-done:
+		case <-time.After(60 * time.Second):
+			err = fmt.Errorf("Cluster.Shutdown of %s did not return within 60s", r.ID.Pretty())
+			if r.Cons != nil {
+				sctx, cancel := context.WithTimeout(context.Background(), 30*time.Second)
+				r.Cons.Shutdown(sctx)
+				cancel()
+			}
+		}
 	}
 	r.DHT.Close()
 	r.Host.Close()
